@@ -284,6 +284,12 @@ impl CommitKey {
         let mut powers_of_g = Vec::with_capacity(len);
 
         for chunk in bytes[u64::SIZE..].chunks_exact(G1Affine::RAW_SIZE) {
+            // The unchecked constructor takes the limbs and the flag byte on
+            // trust, so their encoding is validated first.
+            if !raw_g1_encoding_is_canonical(chunk) {
+                return Err(Error::PointMalformed);
+            }
+
             // Safety: raw-byte chunk size is checked by `chunks_exact`.
             let point = unsafe { G1Affine::from_slice_unchecked(chunk) };
             let point_is_valid =
@@ -415,6 +421,51 @@ impl CommitKey {
 
         Polynomial::from_coefficients_vec(coefficients).ruffini(*point)
     }
+}
+
+/// BLS12-381 base-field modulus as little-endian 64-bit limbs.
+const RAW_FP_MODULUS: [u64; 6] = [
+    0xb9fe_ffff_ffff_aaab,
+    0x1eab_fffe_b153_ffff,
+    0x6730_d2a0_f6b0_f624,
+    0x6477_4b84_f385_12bf,
+    0x4b1b_a7b6_434b_acd7,
+    0x1a01_11ea_397f_e69a,
+];
+
+/// Checks the parts of a raw G1 encoding that
+/// `G1Affine::from_slice_unchecked` takes on trust: both coordinates must be
+/// reduced (limbs below the field modulus), the infinity flag must be `0` or
+/// `1`, and the identity must use its one canonical encoding.
+fn raw_g1_encoding_is_canonical(chunk: &[u8]) -> bool {
+    if chunk.len() != G1Affine::RAW_SIZE {
+        return false;
+    }
+
+    let flag = chunk[G1Affine::RAW_SIZE - 1];
+    if flag > 1 {
+        return false;
+    }
+
+    for coordinate in chunk[..G1Affine::RAW_SIZE - 1].chunks_exact(48) {
+        let mut reduced = false;
+        for (limb, modulus) in
+            coordinate.chunks_exact(8).zip(RAW_FP_MODULUS).rev()
+        {
+            let mut bytes = [0u8; 8];
+            bytes.copy_from_slice(limb);
+            let limb = u64::from_le_bytes(bytes);
+            if limb != modulus {
+                reduced = limb < modulus;
+                break;
+            }
+        }
+        if !reduced {
+            return false;
+        }
+    }
+
+    flag == 0 || chunk == G1Affine::identity().to_raw_bytes()
 }
 
 /// Opening Key is used to verify opening proofs made about a committed
